@@ -1,7 +1,7 @@
 //! Name -> observer / engine tables, and counterexample replay.
 
 use prefix_trie::{PrefixMap, PrefixSet};
-use serde_json::{json, Value};
+use serde_json::Value;
 
 use crate::arena::KeyOpts;
 use crate::explore::{initial, post_check, Observer, St};
@@ -23,6 +23,10 @@ pub fn map_observers<P: PType>(names: &[String]) -> Vec<(&'static str, Observer<
         ("find", obs_view::find::<P>),
         ("wf", obs_view::wf::<P>),
         ("split_hold", obs_view::split_hold::<P>),
+        ("churn", obs_view::churn::<P>),
+        ("handles", crate::obs_c20::handles::<P>),
+        ("faults", crate::obs_c20::faults::<P>),
+        ("clone_indep", obs_view::clone_indep::<P>),
     ];
     names
         .iter()
@@ -38,8 +42,30 @@ pub fn set_observers<P: PType>(names: &[String]) -> Vec<(&'static str, Observer<
         .collect()
 }
 
-pub fn run_other_engine(name: &str, _spec: &Value, _idx: usize) -> Value {
-    json!({"machinery_error": format!("unknown engine {name}")})
+pub fn run_other_engine(name: &str, spec: &Value, idx: usize) -> Value {
+    crate::registry_ext::run_engine(name, spec, idx)
+}
+
+/// rebuild a state by re-executing a history (no checks)
+pub fn rebuild<S: Sut>(uni: &Universe, hist: &[Op], key_opts: KeyOpts) -> Option<St<S>> {
+    let cx = Cx { uni, canonical: false, deep: false };
+    let mut st: St<S> = initial(uni, key_opts);
+    for op in hist {
+        let mut map = st.map.clone();
+        let mut model = st.model.clone();
+        let tok = (st.depth + 1) * 1000;
+        let r = guarded(|| {
+            let _ = map.apply(&mut model, &st.walk, *op, tok, &cx);
+            post_check(&map, &model, &st, *op, uni, key_opts).1
+        });
+        let (w, key) = r.ok()??;
+        st = St { map, model, walk: w, key, depth: st.depth + 1, hist: None, taint: 0 };
+    }
+    Some(st)
+}
+
+pub fn ops_from_json(v: &Value) -> Vec<Op> {
+    v.as_array().map(|a| a.iter().map(op_from_json).collect()).unwrap_or_default()
 }
 
 fn op_from_json(v: &Value) -> Op {
@@ -81,7 +107,7 @@ fn replay_explore<S: Sut>(uni: &Universe, hist: &[Op], at: &str, alpha: Alphabet
                     out.extend(vs);
                     return out;
                 };
-                st = St { map, model, walk: w, key, depth: st.depth + 1, hist: None };
+                st = St { map, model, walk: w, key, depth: st.depth + 1, hist: None, taint: 0 };
             }
         }
     }
@@ -107,7 +133,7 @@ fn replay_typed<P: PType>(rp: &Value) -> Vec<Viol> {
         Some("canonical") => Alphabet::Canonical,
         _ => Alphabet::Full,
     };
-    let key_opts = KeyOpts { reps: spec["reps"].as_bool().unwrap_or(false), layout: spec["layout"].as_bool().unwrap_or(false) };
+    let key_opts = KeyOpts { reps: spec["reps"].as_bool().unwrap_or(false), layout: spec["layout"].as_bool().unwrap_or(false), no_free: spec["no_free"].as_bool().unwrap_or(false) };
     let deep = spec["deep"].as_bool().unwrap_or(false);
     let names: Vec<String> = at.strip_prefix("observer:").map(|n| vec![n.to_string()]).unwrap_or_default();
     if spec["kind"].as_str() == Some("set") {
